@@ -6,7 +6,7 @@ ENTRY = dict(
         prop_file="Properties/C02.v",
         corr_files=["Corr/C02Corr.v"],
         theorems=["c02_keq_sound", "c02_family_exact", "c02_fixed_exact", "c02_move_exact", "c02_nonlocal_exact",
-                  "c02_u_from_thetavec", "c02_kak_dressing", "c02_kak_model", "c02_kak_exact", "c02_spec_sanity", "c02_refusal",
+                  "c02_u_from_thetavec", "c02_kak_dressing", "c02_kak_model", "c02_kak_exact", "c02_spec_sanity", "c02_refusal", "c02_missing_param_crashes",
                   "c02_registry", "c02_source_tables"],
         allowed_axioms=["ClassicalDedekindReals.sig_not_dec", "ClassicalDedekindReals.sig_forall_dec",
                         "FunctionalExtensionality.functional_extensionality_dep"],
